@@ -143,7 +143,7 @@ def pk_conservation(F):
 
 def pk(props=("C16", "C03"), recipe=(1, 1), n_pallets=2, blocking=True, split_out=1, split_sel="FIRST_AVAILABLE", sym=("ip", "ii", "pd"), comb_cap=2,
        until=None, twin=False, split_blocking=None, item_cap=2, mid_cap=1, out_cap=1, out_delay=0, comb_only=False, split_pd="sym", setup=0,
-       mid_mode="FIFO", split_sd_hi=3, split_in_sel="FIRST_AVAILABLE"):
+       mid_mode="FIFO", split_sd_hi=3, split_in_sel="FIRST_AVAILABLE", item_delay=0, item_mode="FIFO", src_sel=0):
     """pallet source + item source(s) -> Combiner(recipe) -> MID -> Splitter -> OUT_j -> sinks"""
     def fn(ctx):
         from factorysimpy.nodes.source import Source
@@ -171,12 +171,13 @@ def pk(props=("C16", "C03"), recipe=(1, 1), n_pallets=2, blocking=True, split_ou
         comb = F.add_node(Combiner(env, "CMB", target_quantity_of_each_item=list(recipe), processing_delay=F.delay_source("CMB", [pd] * (n_pallets + 1), "callable", after=1),
                                    blocking=blocking, node_setup_time=setup))
         F.unit_delay["CMB"] = pd
-        sp = F.add_node(Source(env, "SP", flow_item_type="pallet", inter_arrival_time=F.delay_source("SP", [ip] * n_pallets, "generator"), blocking=True, out_edge_selection=0))
+        sp = F.add_node(Source(env, "SP", flow_item_type="pallet", inter_arrival_time=F.delay_source("SP", [ip] * n_pallets, "generator"), blocking=True, out_edge_selection=src_sel))
         ep = _edge(F, "buffer", "BP", comb_cap, 0)
         ep.connect(sp, comb)
         for i in range(n_ing):
-            si = F.add_node(Source(env, f"SI{i}", inter_arrival_time=F.delay_source(f"SI{i}", [ii[i]] * max(need[i], 1), "generator"), blocking=True, out_edge_selection=0))
-            ei = _edge(F, "buffer", f"BI{i}", item_cap, 0)
+            si = F.add_node(Source(env, f"SI{i}", inter_arrival_time=F.delay_source(f"SI{i}", [ii[i]] * max(need[i], 1), "generator"), blocking=True, out_edge_selection=src_sel))
+            idl = ctx.real("idl", 0, 2) if (item_delay == "sym-last" and i == n_ing - 1) else (0 if item_delay == "sym-last" else item_delay)
+            ei = _edge(F, "buffer", f"BI{i}", item_cap, idl, mode=item_mode)
             ei.connect(si, comb)
         sinks = []
         if comb_only:
